@@ -158,6 +158,10 @@ type HistOpts struct {
 	DupByzPct int  // percent chance that an evidence entry is delivered twice in the same block
 	RankDance  int // percent of transaction slots used for traffic around rank 100 of the candidates (txgen_extra.go)
 	OwnerDance int // percent of transaction slots used for ticker hand-overs and their follow-ups (txgen_extra.go)
+	Script    int  // percent of blocks that contain a scripted sequence of the directed generators (directed.go: Gen.Script)
+	ExactPct  int  // see Gen.ExactPct (0: default 35, negative: off)
+	OwnGasPct int  // see Gen.OwnGasPct (0: default 40, negative: off)
+	GasPriceMax uint32 // see Gen.GasPriceMax
 }
 
 // Hist is a running history.
@@ -213,6 +217,16 @@ func NewHist(o HistOpts, sink *Sink) (*Hist, error) {
 	h.G = &Gen{W: w, N: n, Weights: o.Weights, MalformedPct: o.Malformed, CustomGasPct: o.CustomGas, MultisigPct: o.Multisig, NearVotes: o.NearVotes}
 	if h.G.Weights == nil {
 		h.G.Weights = DefaultWeights()
+	}
+	h.G.ExactPct, h.G.OwnGasPct, h.G.GasPriceMax, h.G.Sent = o.ExactPct, o.OwnGasPct, o.GasPriceMax, map[types.Address][][]byte{}
+	if o.ExactPct == 0 {
+		h.G.ExactPct = 35
+	}
+	if o.OwnGasPct == 0 {
+		h.G.OwnGasPct = 40
+	}
+	for _, a := range w.Wallets {
+		h.Univ[a] = true
 	}
 	h.PKs = map[types.Pubkey]bool{}
 	for _, pk := range w.PubKeys {
@@ -300,6 +314,12 @@ func (h *Hist) sendFull(op string) {
 		lp := h.liveProjection()
 		for _, dv := range h.divergence(lp, d) {
 			h.S.Op("X divergence " + dv)
+			// a ticker owner that differs between memory and disk: after a restart somebody else controls the ticker
+			// (C22: owner-only control of the registry; C05: minting / recreating is value control by authorisation)
+			if who := ownerDivergence(dv); who != "" {
+				h.S.Op("X viol C22 ticker-owner-cache-vs-disk " + who)
+				h.S.Op("X viol C05 ticker-owner-cache-vs-disk " + who)
+			}
 		}
 	}
 	lines := []string{op}
@@ -739,6 +759,12 @@ func (h *Hist) Block() bool {
 	if h.O.OrderDance > 0 && ntx >= 2 && h.W.Rng.Intn(100) < h.O.OrderDance {
 		danceAt = h.W.Rng.Intn(ntx - 1)
 	}
+	// scripted sequences of the directed generators; a wallet life cycle in progress gets a slot in every block
+	scriptAt := -1
+	if h.O.Script > 0 && !warm && (h.G.wallet != nil || h.W.Rng.Intn(100) < h.O.Script) {
+		ntx += 2
+		scriptAt = h.W.Rng.Intn(ntx - 1)
+	}
 	if warm {
 		ntx, danceAt = 0, -1
 	}
@@ -747,21 +773,40 @@ func (h *Hist) Block() bool {
 		if i == danceAt {
 			queue = h.G.orderDance(h.View)
 		}
+		if i == scriptAt && len(queue) == 0 {
+			queue = h.G.Script(height, h.View)
+			if i+len(queue) > ntx {
+				ntx = i + len(queue)
+			}
+			if len(queue) > 0 {
+				h.Stats["dance."+strings.SplitN(strings.TrimPrefix(strings.TrimPrefix(queue[0].Note, "dance:"), "replay:"), ":", 2)[0]]++
+			}
+		}
 		if len(queue) > 0 {
 			g = queue[0]
 			queue = queue[1:]
-			// re-sign with the current nonce (an earlier tx of the same sender may have been accepted meanwhile)
-			note := g.Note
-			g = h.G.Build(g.Type, g.Data, g.Sender, g.GasCoin, func(t *tx.Transaction) { t.GasPrice = 1; t.Payload = nil; t.ServiceData = nil })
-			g.Note = note
+			if !strings.HasPrefix(g.Note, "replay:") {
+				// re-sign with the current nonce (an earlier tx of the same sender may have been accepted meanwhile)
+				note := g.Note
+				g = h.G.Build(g.Type, g.Data, g.Sender, g.GasCoin, func(t *tx.Transaction) { t.GasPrice = 1; t.Payload = nil; t.ServiceData = nil })
+				g.Note = note
+			}
 		} else if q := h.extraTxs(height); len(q) > 0 { // scenario generators of the profile (txgen_extra.go)
 			g, queue = q[0], q[1:]
 		} else {
 			g = h.G.Next(height)
 		}
 		if h.O.CheckTx {
+			bookBefore := h.bookView()
 			cr, cp := n.Check(g.Raw)
 			h.S.Op(fmt.Sprintf("K code=%d panic=%q raw=%x", cr.Code, cp, g.Raw))
+			if cp == "" {
+				// C06: CheckTx must not change what DeliverTx will see: the live projection (equal to the view since the last
+				// operation) and the order books as the node would walk them
+				for _, dv := range h.checkTxChanged(bookBefore) {
+					h.S.Op("X viol C06 checktx-changed-state " + dv)
+				}
+			}
 			if cp != "" {
 				h.Panics = append(h.Panics, fmt.Sprintf("CheckTx h=%d: %s raw=%x", height, cp, g.Raw))
 				return false
@@ -795,6 +840,16 @@ func (h *Hist) Block() bool {
 		}
 		if r.Code == 0 && g.Type == tx.TypeCreateMultisig {
 			h.Univ[accounts.CreateMultisigAddress(g.Sender, g.Nonce)] = true
+		}
+		if r.Code == 0 && strings.HasPrefix(g.Note, "dance:partial-fill:") {
+			var oid uint32
+			fmt.Sscanf(strings.TrimPrefix(g.Note, "dance:partial-fill:"), "%d", &oid)
+			if o := n.App.CurrentState().Swap().GetOrder(oid); o != nil && o.WantBuy != nil && o.WantBuy.Sign() == 1 {
+				h.Stats["orders.partial_fill_left"]++ // the order stays in the book, the pool price sits on it
+			}
+		}
+		if r.Code == 0 && h.isWallet(g.Sender) && len(h.G.Sent[g.Sender]) < 8 {
+			h.G.Sent[g.Sender] = append(h.G.Sent[g.Sender], g.Raw)
 		}
 		h.G.Recent = append(h.G.Recent, g.Raw)
 		if len(h.G.Recent) > 50 {
@@ -1189,4 +1244,102 @@ func liveNextOrder(sw *swap.SwapV2, committed string) uint64 {
 	var c uint64
 	fmt.Sscan(committed, &c)
 	return c
+}
+
+
+func (h *Hist) isWallet(a types.Address) bool {
+	for _, w := range h.W.Wallets {
+		if w == a {
+			return true
+		}
+	}
+	return false
+}
+
+// ownerDivergence recognises a divergence line of a coin record (c <id> live="…" disk="…") whose owner field differs.
+func ownerDivergence(dv string) string {
+	if !strings.HasPrefix(dv, "c ") {
+		return ""
+	}
+	i, j := strings.Index(dv, "live=\""), strings.Index(dv, "disk=\"")
+	if i < 0 || j < 0 || j < i {
+		return ""
+	}
+	lf := strings.Fields(strings.Trim(strings.TrimSpace(dv[i+5:j]), "\""))
+	df := strings.Fields(strings.Trim(strings.TrimSpace(dv[j+5:]), "\""))
+	if len(lf) != 9 || len(df) != 9 || lf[6] == df[6] {
+		return ""
+	}
+	return fmt.Sprintf("coin=%s ticker=%s live-owner=%s disk-owner=%s", strings.Fields(dv)[1], lf[0], lf[6], df[6])
+}
+
+// bookView renders the bookkeeping the node consults when it walks an order book: the deleted / unsorted marks of every
+// known order on the live pair (an order marked deleted is skipped by every trade until the next commit). Read-only: nothing
+// is loaded from disk. The cached best-first id lists are not part of it: CheckTx legitimately fills those caches.
+func (h *Hist) bookView() Dump {
+	d := Dump{}
+	sw, ok := h.N.App.CurrentState().Swap().(*swap.SwapV2)
+	if !ok {
+		return d
+	}
+	for k, v := range h.View {
+		if !strings.HasPrefix(k, "o ") {
+			continue
+		}
+		var id uint32
+		var c0, c1 uint64
+		if _, err := fmt.Sscanf(k, "o %d", &id); err != nil {
+			continue
+		}
+		if _, err := fmt.Sscanf(v, "%d %d", &c0, &c1); err != nil {
+			continue
+		}
+		p := sw.Pair(types.CoinID(c0), types.CoinID(c1))
+		if p == nil {
+			continue
+		}
+		_, deleted, unsorted := swap.VerifOrderState(p, id)
+		d[fmt.Sprintf("book-order %d", id)] = fmt.Sprintf("deleted=%v unsorted=%v", deleted, unsorted)
+	}
+	return d
+}
+
+// checkTxChanged compares the node's live state after a CheckTx with the state before it.
+func (h *Hist) checkTxChanged(bookBefore Dump) []string {
+	var out []string
+	lp := h.liveProjection()
+	for k, v := range lp {
+		if !liveKey(k) {
+			continue
+		}
+		if pv, ok := h.View[k]; !ok || pv != v {
+			out = append(out, fmt.Sprintf("%s before=%q after=%q", k, h.View[k], v))
+		}
+	}
+	for k, pv := range h.View {
+		if !liveKey(k) {
+			continue
+		}
+		if _, ok := lp[k]; ok {
+			continue
+		}
+		if strings.HasPrefix(k, "blk ") || strings.HasPrefix(k, "uc ") {
+			continue
+		}
+		if (strings.HasPrefix(k, "b ") || strings.HasPrefix(k, "n ") || strings.HasPrefix(k, "ms ") || strings.HasPrefix(k, "ls ")) && !h.inUniv(k) {
+			continue
+		}
+		out = append(out, fmt.Sprintf("%s before=%q after=absent", k, pv))
+	}
+	after := h.bookView()
+	for k, v := range bookBefore {
+		if after[k] != v {
+			out = append(out, fmt.Sprintf("%s before=%q after=%q", k, v, after[k]))
+		}
+	}
+	sort.Strings(out)
+	if len(out) > 4 {
+		out = out[:4]
+	}
+	return out
 }
